@@ -207,7 +207,18 @@ class GR:
         nres = r.choice([1, 1, 1, 2, 3])
         ress = []
         for i in range(nres):
-            ress.append("%s:%s" % ("a" if (i == 0 or r.random() < 0.6) else "o", hx(self.resource())))
+            res = self.resource()
+            if i > 0 and r.random() < 0.3:
+                # a later resource defines an id with the OTHER kind (messages and terms share one namespace in a bundle):
+                # `m2` becomes the term `-m2`, or the term `-t1` becomes the message `t1`; references elsewhere keep the old kind
+                import re as _re
+                if r.random() < 0.5:
+                    m = r.choice(MSGS)
+                    res = _re.sub(r"(?m)^%s =" % m, "-%s =" % m, res)
+                else:
+                    t = r.choice(TERMS)
+                    res = _re.sub(r"(?m)^-%s =" % t, "%s =" % t, res)
+            ress.append("%s:%s" % ("a" if (i == 0 or r.random() < 0.6) else "o", hx(res)))
         return "fmt %s %s %s %s" % (self.config(), ",".join(ress), self.fns(), self.requests())
 
 
